@@ -269,7 +269,13 @@ func (r *Runtime) Close(err *error) {
 			}
 		}
 	}()
-	r.runFinalizers(r.weakRefPool.ExtractAllMarkedFinalize())
+	pending := r.weakRefPool.ExtractAllMarkedFinalize()
+	if r.RuntimeContext().Status() == StatusKilled {
+		// The finalizers of a context that was killed are skipped (nothing
+		// would bound what they do any more); resources are still released.
+		return
+	}
+	r.runFinalizers(pending)
 	return
 }
 
